@@ -62,7 +62,7 @@ register(PropertySpec(
              "(shared with C13) the type filter of a supplied domain is lazy (an eagerly built empty list counts as no domain: the registry) and uses the class being constructed"),
         Rule("INSERT-RETRIEVABLE", _lazy("cacheidx", "rule_coverage_only_if_stored"), 1,
              "with an empty key list (a comparison between two literals) insert() records nothing as covered"),
-        Rule("BOUND-AGAIN-TRUTH", _lazy("values", "rule_bound_again_truth"), 2,
+        Rule("BOUND-AGAIN-TRUTH", _lazy("values", "rule_bound_again_truth"), 4,
              "an expression that finds itself bound already (a condition object used twice) sets its truth flag from the bound value before handing the binding on"),
         Rule("REPLAY-ONE-ENTRY", _lazy("cacheidx", "rule_replay_one_entry"), 1,
              "a lookup that leaves a cache key open is answered from the wildcard child or from the children that bind the key, not both (one result is stored under partial and full rows)"),
@@ -78,6 +78,10 @@ register(PropertySpec(
              "rows replayed from a result cache are dropped only when they are duplicates (a false row is needed by an enclosing or_), and treated like freshly evaluated rows"),
         Rule("REPLAY-FALSE-ASKED", _lazy("cacheidx", "rule_replay_false_asked"), 5,
              "a replay from a result cache hands false rows on only to an evaluation that asked for them (the cache also holds the false rows of an evaluation that did)"),
+        Rule("DEDUP-PER-PARENT", _lazy("binding", "rule_dedup_per_parent"), 1,
+             "what a node has handed on is remembered per parent (a node used under two parents owes each its rows)"),
+        Rule("SHARED-TAIL", _lazy("lazy", "rule_shared_tail"), 5,
+             "two result iterators over one variable alive at once: each is handed what the other pulled from the shared one-shot domain (no qualifying object is lost)"),
     ],
     explanation="Decides the clause 'the condition vocabulary denotes the ordinary Python operator': the node each "
                 "public comparison/membership entry constructs (arguments mapped to dataclass fields through the MRO "
@@ -119,7 +123,7 @@ register(PropertySpec(
              "for_all / flatten / concatenate / not_ return, on every path, the node of their name built from their arguments themselves"),
         Rule("COVERAGE-SUBSUMPTION", _lazy("cacheidx", "rule_coverage_subsumption"), 4,
              "(shared with C20) result caches are on by default: a coverage test that over-approximates loses rows on re-evaluation of any query"),
-        Rule("BOUND-AGAIN-TRUTH", _lazy("values", "rule_bound_again_truth"), 2,
+        Rule("BOUND-AGAIN-TRUTH", _lazy("values", "rule_bound_again_truth"), 4,
              "an expression that finds itself bound already (a condition object used twice) sets its truth flag from the bound value before handing the binding on"),
         Rule("BIND-THREAD", _lazy("binding", "rule_bind_thread"), 30,
              "the operand a negated conjunction / disjunction evaluates under its sibling's row receives the incoming binding too (nesting under an operator that bound a variable already)"),
@@ -829,6 +833,8 @@ register(PropertySpec(
              "a replay from a result cache hands false rows on only to an evaluation that asked for them (the cache also holds the false rows of an evaluation that did)"),
         Rule("REQUEST-DELEGATED", _lazy("subquery", "rule_request_delegated"), 4,
              "an evaluation method that delegates to another evaluation method of the same node hands the request for false rows on unchanged (entity and set_of sub-queries behave alike on the left of `|`)"),
+        Rule("DEDUP-PER-PARENT", _lazy("binding", "rule_dedup_per_parent"), 1,
+             "what a node has handed on is remembered per parent (a node used under two parents owes each its rows)"),
     ],
     explanation="An implicit join is a join only if every operator threads the binding it received to its operands and "
                 "keeps everything its operands bound. Both are provenance facts on the evaluation call sites and the "
@@ -997,6 +1003,8 @@ register(PropertySpec(
              "a rule marks as inferred the selected variables it concludes on or that have no domain - not a flattened expression, not a domain variable selected next to them"),
         Rule("KWARGS-NAMESPACE", _lazy("predform", "rule_kwargs_namespace"), 6,
              "the functions that carry the user's field names in **kwargs keep their own parameters out of that namespace (positional-only)"),
+        Rule("DEDUP-PER-PARENT", _lazy("binding", "rule_dedup_per_parent"), 1,
+             "what a node has handed on is remembered per parent (a node used under two parents owes each its rows)"),
     ],
     explanation="All clauses are weak but necessary: arguments evaluated under the current binding, one construction "
                 "per combination, no retrieval instead of construction for inferred variables, existing objects passed "
